@@ -217,8 +217,11 @@ def additive_case(ck, rng, model_terms, ns, na, order, kind, densities, layout="
             return
         got_dom = [[(float(ax[0]), float(ax[1])) for ax in g] for g in grids]
         exp_dom = [[BOUNDS[kd] for kd in exp_kinds[k]] for k in keep]
-        if got_dom != exp_dom:
-            ck.violation("map-additive:%s:axis-domain-not-the-bounds-of-its-feature" % tag, {"impl": got_dom[:4], "spec": exp_dom[:4], "terms": [p[0] for p in got_pairs][:4]})
+        # the property asks for fidelity ON the bounded feature domain: every axis must COVER the bounds of its feature
+        covers = len(got_dom) == len(exp_dom) and all(len(g_) == len(e_) and all(a[0] <= b[0] + 1e-12 and a[1] >= b[1] - 1e-12 for a, b in zip(g_, e_))
+                                                     for g_, e_ in zip(got_dom, exp_dom))
+        if not covers:
+            ck.violation("map-additive:%s:axis-domain-does-not-cover-the-bounds-of-its-feature" % tag, {"impl": got_dom[:4], "spec": exp_dom[:4], "terms": [p[0] for p in got_pairs][:4]})
             return
         if ns == 0 and abs(const - base_scale[0] * alpha.sum()) > 1e-13 * (1 + abs(const)):
             ck.violation("map-additive:%s:constant-term" % tag, {"const": float(const), "expected": float(base_scale[0] * alpha.sum())})
@@ -249,8 +252,10 @@ def simple_and_linear(ck, rng):
             try:
                 scale, ind_sets, grids, coefs = quiet(map_tools.get_mapped_gp_evaluator_simple, kern, Xc, alpha, fl, rbf_density=dens, max_ngrid=400)
                 got_dom = [(float(ax[0]), float(ax[1])) for ax in grids[0]]
-                if [int(i) for i in ind_sets[0]] != cols or got_dom != [BOUNDS[c % 3] for c in cols]:
-                    ck.violation("map-simple:%s:axis-domain-not-the-bounds-of-its-feature" % idx_name,
+                exp_dom = [BOUNDS[c % 3] for c in cols]
+                if [int(i) for i in ind_sets[0]] != cols or len(got_dom) != len(exp_dom) or \
+                        not all(a[0] <= b[0] + 1e-12 and a[1] >= b[1] - 1e-12 for a, b in zip(got_dom, exp_dom)):
+                    ck.violation("map-simple:%s:axis-domain-does-not-cover-the-bounds-of-its-feature" % idx_name,
                                  {"ind_set": [int(i) for i in ind_sets[0]], "impl": got_dom, "spec": [BOUNDS[c % 3] for c in cols]})
                     break
                 f, _ = SplineSetEvaluator(scale, ind_sets, grids, coefs)(X.copy())
